@@ -29,7 +29,8 @@ ASSUMPTIONS = [
 ATOMS = ["A", "C", "N", "R", "N*", "N*?", "A*"]
 KINDS = ["seq-linear", "seq-circular", "rec-linear", "rec-circular", "circularrecord",
          # the same text in the other containers a target may come in (never on the full range grid)
-         "rec-mutable-circular", "circularrecord-mutable", "circularrecord-annotated", "rec-annotated-linear"]
+         "rec-mutable-circular", "circularrecord-mutable", "circularrecord-annotated", "rec-annotated-linear",
+         "circularrecord-other-DNA", "rec-genomic-DNA-linear"]
 
 
 ALL5 = ["seq-linear", "seq-circular", "rec-linear", "rec-circular", "circularrecord"]
@@ -141,7 +142,9 @@ def make_targets(s):
             "rec-mutable-circular": (SeqRecord(MutableSeq(s), id="t"), dict(linear=False), True),
             "circularrecord-mutable": (CircularRecord(MutableSeq(s), id="t"), dict(), True),
             "circularrecord-annotated": (gen.contained(s, "annotated", "t"), dict(), True),
-            "rec-annotated-linear": (ann, dict(), False)}
+            "rec-annotated-linear": (ann, dict(), False),
+            "circularrecord-other-DNA": (CircularRecord(seq, id="t", annotations={"topology": "circular", "molecule_type": "other DNA", "comment": ["l1", "l2"]}), dict(), True),
+            "rec-genomic-DNA-linear": (SeqRecord(seq, id="t", annotations={"molecule_type": "genomic DNA", "data_file_division": "SYN"}), dict(), False)}
 
 
 def text_of(x):
@@ -327,10 +330,15 @@ def run_pattern(st, p, tg, band):
                     if rs[i] is not None:
                         ref = rs[i]
                         break
-                if endpos is None:
-                    m = rx.search(target, pos, **kw) if pos else rx.search(target, **kw)
-                else:
-                    m = rx.search(target, pos, endpos, **kw)
+                try:
+                    if endpos is None:
+                        m = rx.search(target, pos, **kw) if pos else rx.search(target, **kw)
+                    else:
+                        m = rx.search(target, pos, endpos, **kw)
+                except Exception as e:
+                    st.violation("patterns", "search-raises-" + type(e).__name__, dict(pattern=p, target=s, kind=kind, pos=pos, endpos=endpos),
+                                 "a match or None", "{}: {}".format(type(e).__name__, str(e)[:120]))
+                    continue
                 if ref is None:
                     n_none += 1
                     if m is not None:
